@@ -24,7 +24,7 @@ CHECKS: dict[str, dict[str, str]] = {
     'C19': dict(
         technique='implementation-shaped TLA+ model of one watcher task (Streaming.tla) model-checked with a server (MC_Streaming) and bound to the code by trace validation of every watcher task (Trace_Streaming); TLA+ model of the list-then-watch continuity logic (Watching.tla) checked exhaustively with TLC; recorded executions of '
                   'the real operator against the stateful fake API checked by TLC against a TLA+ property automaton (WatchMonitor.tla)',
-        text='[+ Streaming.tla: the implementation-shaped, timed model of one watcher task (list/watch calls with api.request retries, Retry-After, reconnect_backoff, 410, client and inactivity timeouts, pause notice, cancellation), closed with a server in MC_Streaming (continuity laws, 2.2M states quick / 62M thorough, negative `jump` configuration); Trace_Streaming validates EVERY watcher task of every run second by second (version resumed from, instant of every request, hand-over of every event, closing on pause); a cluster-scoped kind under a namespace-restricted operator (known family F34)] [+ Orchestration.tla: observers vs orchestrator under the `revised` condition, Coverage for any number of revisions over 4 pairs, negative model loses a wake-up; CRDs modified at run time] Watching.tla: a server change log, a client that lists, watches from a remembered version and survives EOF, connection errors, '
+        text='[+ Trace_Orchestration: every adjustment of the real orchestrator (entry and return of adjust_tasks with the insights it reads) and every start / end of a watcher task against Orchestration.tla (rewritten over resources x namespaces: Spawnable / Kept); behaviours of the watcher model drawn by TLC (Sim_Streaming) replayed into the real operator] [+ Streaming.tla: the implementation-shaped, timed model of one watcher task (list/watch calls with api.request retries, Retry-After, reconnect_backoff, 410, client and inactivity timeouts, pause notice, cancellation), closed with a server in MC_Streaming (continuity laws, 2.2M states quick / 62M thorough, negative `jump` configuration); Trace_Streaming validates EVERY watcher task of every run second by second (version resumed from, instant of every request, hand-over of every event, closing on pause); a cluster-scoped kind under a namespace-restricted operator (known family F34)] [+ Orchestration.tla: observers vs orchestrator under the `revised` condition, Coverage for any number of revisions over 4 pairs, negative model loses a wake-up; CRDs modified at run time] Watching.tla: a server change log, a client that lists, watches from a remembered version and survives EOF, connection errors, '
              'timeouts, 410 after compaction, bookmarks and an unknown ERROR; NoSkip / SinceNeverAhead / AllReach hold in every reachable '
              'state for 4 changes x 3 faults (two configurations), and a negative configuration (resume version ahead of the stream) must '
              'fail. The real operator then runs random object histories with stream faults at random positions, and namespace/CRD churn under '
@@ -92,7 +92,7 @@ CHECKS: dict[str, dict[str, str]] = {
                   'executions of the real operator with scripted daemons validated by TLC step by step against Spawning.tla (Trace_Spawning.tla) '
                   'and against a TLA+ property automaton (DaemonMonitor.tla); configurations and histories drawn by TLC (-simulate on Sim_Spawning) '
                   'replayed into the real operator',
-        text='TLC explores every interleaving of label toggles, deletion and daemon reactions for one object/one daemon (3 reaction kinds); '
+        text='[+ known family F9 in the mixed histories (Handling!Family_F9)] TLC explores every interleaving of label toggles, deletion and daemon reactions for one object/one daemon (3 reaction kinds); '
              'the clauses that hold are invariants, the known families F5 and F18 are shown by witness configurations. Random histories '
              '(toggles, edits, graceful deletion, forced finalizer removal, operator exit; 1-2 daemons + a timer; obey / needs-cancel / '
              'swallows-cancel / exits-on-its-own; backoff x timeout) run on the real operator in virtual time; TLC evaluates the C09 clauses '
@@ -109,7 +109,7 @@ CHECKS: dict[str, dict[str, str]] = {
     'C10': dict(
         technique='explicit TLA+ transcription of the timer loop (Timers.tla) checked exhaustively with TLC; start/end instants of the real '
                   'timer function in virtual time validated by TLC against the specification (Trace_Timers.tla)',
-        text='[+ zero delays and zero backoffs: the retry starts at once; AfterTemp states the exact instant] [+ no change-detecting handler at all: family F6 as a named deviation of the trace specification] FirstRun, NoOverlap, IdleLaw, AfterOk, AfterOkSharp, AfterTemp, AfterExc and PermanentEndsIt hold in every state of the model '
+        text='[+ the object leaves and re-enters the timer filters: Unmatch / Rematch / Respawn in Timers.tla (a new instance only once the old one has fully ended, never after an own exit), model-checked with two toggles and bound by label toggles in the scenarios] [+ zero delays and zero backoffs: the retry starts at once; AfterTemp states the exact instant] [+ no change-detecting handler at all: family F6 as a named deviation of the trace specification] FirstRun, NoOverlap, IdleLaw, AfterOk, AfterOkSharp, AfterTemp, AfterExc and PermanentEndsIt hold in every state of the model '
              '(7 configurations x durations x outcome scripts x change instants, ~3 million states). The real operator runs one timer per '
              'scenario under a virtual clock; since the specification is deterministic given the environment\'s choices, a trace is accepted '
              'only if every start instant is exactly the one the laws give. The check showed F2 (fixed: 9a87981) and F1 (fixed: b6c0de9).',
@@ -170,7 +170,7 @@ CHECKS: dict[str, dict[str, str]] = {
     'C03': dict(
         technique='explicit TLA+ model of the closed loop of one object (Handling.tla) checked exhaustively with TLC; traces of the real '
                   'kopf.operator() in the world simulator validated by TLC against the specification (Trace_Handling.tla)',
-        text='[+ TLC-drawn histories (Sim_Handling); histories of the consistency and finalizer profiles; user transformations carried forward] TerminalConverged on configurations without doors / with kills, stops, restarts, re-listings; Termination under weak fairness; witness configurations for the known families F8, F20, F21, F22; histories run to quiescence: final state Converged (or excused by a known family) and no PATCH in the tail window' ' -- checked by TLC on Handling.tla for every interleaving of the bounded configurations, and on every state of '
+        text='[+ multi-step deletions and retries at once in the histories] [+ TLC-drawn histories (Sim_Handling); histories of the consistency and finalizer profiles; user transformations carried forward] TerminalConverged on configurations without doors / with kills, stops, restarts, re-listings; Termination under weak fairness; witness configurations for the known families F8, F20, F21, F22; histories run to quiescence: final state Converged (or excused by a known family) and no PATCH in the tail window' ' -- checked by TLC on Handling.tla for every interleaving of the bounded configurations, and on every state of '
              'the behaviour that explains each recorded trace of the real operator (seeded random scenarios of profile converge; every '
              'PATCH is compared with the specification\'s server object field by field, virtual time is bound by urgency). Daemons and timers '
              'hold the finalizer too: the daemon executions of C09 are validated against Spawning.tla (Trace_Spawning: every finalizer write must '
@@ -182,7 +182,7 @@ CHECKS: dict[str, dict[str, str]] = {
     'C06': dict(
         technique='explicit TLA+ model of the closed loop of one object (Handling.tla) checked exhaustively with TLC; traces of the real '
                   'kopf.operator() in the world simulator validated by TLC against the specification (Trace_Handling.tla)',
-        text='NeverEarly (the finalizer is withdrawn from a deleting object only after every mandatory matching deletion handler has finished), ForeignUntouched, FollowsMatching, with foreign finalizer edits, toggles, deletions and 422 conflicts' ' -- checked by TLC on Handling.tla for every interleaving of the bounded configurations, and on every state of '
+        text='[+ multi-step deletions (a second deletion handler, retries at once); the known family F9 (deletion handlers started anew while the object is held for a stopping daemon) named by Handling!Family_F9 on the validated prefix of a livelocked run] NeverEarly (the finalizer is withdrawn from a deleting object only after every mandatory matching deletion handler has finished), ForeignUntouched, FollowsMatching, with foreign finalizer edits, toggles, deletions and 422 conflicts' ' -- checked by TLC on Handling.tla for every interleaving of the bounded configurations, and on every state of '
              'the behaviour that explains each recorded trace of the real operator (seeded random scenarios of profile finalizer; every '
              'PATCH is compared with the specification\'s server object field by field, virtual time is bound by urgency). Daemons and timers '
              'hold the finalizer too: the daemon executions of C09 are validated against Spawning.tla (Trace_Spawning: every finalizer write must '
@@ -218,7 +218,7 @@ CHECKS: dict[str, dict[str, str]] = {
     'C14': dict(
         technique='explicit TLA+ model of the closed loop of one object (Handling.tla) checked exhaustively with TLC; traces of the real '
                   'kopf.operator() in the world simulator validated by TLC against the specification (Trace_Handling.tla)',
-        text='ResumeOnce per process (modulo the stale-view door), resume handlers mixed into update/delete causes, re-listings (410) and restarts' ' -- checked by TLC on Handling.tla for every interleaving of the bounded configurations, and on every state of '
+        text='[+ restarts over an object that is being deleted, with and without deleted=True] ResumeOnce per process (modulo the stale-view door), resume handlers mixed into update/delete causes, re-listings (410) and restarts' ' -- checked by TLC on Handling.tla for every interleaving of the bounded configurations, and on every state of '
              'the behaviour that explains each recorded trace of the real operator (seeded random scenarios of profile resume; every '
              'PATCH is compared with the specification\'s server object field by field, virtual time is bound by urgency). Daemons and timers '
              'hold the finalizer too: the daemon executions of C09 are validated against Spawning.tla (Trace_Spawning: every finalizer write must '
@@ -231,7 +231,7 @@ CHECKS: dict[str, dict[str, str]] = {
         technique='explicit TLA+ model of the multiplexer (Queueing.tla) checked exhaustively with TLC incl. liveness; traces of the '
                   'real watcher/worker/scheduler (q.* hooks) recorded under a virtual clock and validated by TLC against the spec '
                   '(Trace_Queueing.tla, with time urgency)',
-        text='[+ a cluster-scoped kind served by an operator restricted to several namespaces: one stream, every event once] TLC visits every interleaving of arrivals, scheduler starts, idle-timeout expiries (enabled whether or not the backlog '
+        text='[+ deliveries, not versions, are the events: re-listings while workers are busy or idle but alive] [+ a cluster-scoped kind served by an operator restricted to several namespaces: one stream, every event once] TLC visits every interleaving of arrivals, scheduler starts, idle-timeout expiries (enabled whether or not the backlog '
              'was just filled), processing ends and watcher cancellation for 2-3 objects x 2-3 events under worker limits '
              '{unlimited, 1, 2}; the negative configuration shows the invariants detect the lost event. The real operator is then run '
              'in the world simulator on crafted and seeded-random timed scenarios that force exactly those schedules (an arrival at '
